@@ -95,6 +95,26 @@ add("C32", "model_checking", "explicit-state BFS over operation sequences on the
     "For alphabet sizes at both sides of every power of two up to the 12-bit limit a breadth-first search over operation sequences (new, eps, end, clear, push, k_concat with eps/end/a sequence/itself, of) on the real Terminals value; after every operation every observer (len, get, iter, is_eps, is_k_complete, k_len) must agree with the sequence model; all reached values are compared pairwise for equality and ordering; KTuple construction paths and k_concat are checked the same way.",
     "KTuple equality is demanded only between tuples reporting the same k() (weaker reading)")
 
+LS = "the language server is driven through hooks H3/H4: a JSON-lines interpreter inside a hooks-on parol-ls binary that feeds real LSP notifications/requests to the real Server over lsp_server::Connection::memory()"
+add("C27", "exploration", "bounded exhaustive enumeration of comment placements x formatting options through the real formatting handler; parol's own reader, comment list and idempotence as oracles",
+    "The 23 repository formatter inputs and 6 grammars using every PAR feature, the latter with one comment in every token gap and two comments in every pair of gaps, x all 12 option combinations: the formatted text must be read by parol as a structurally equal GrammarConfig, carry the same comment sequence, and be a fixpoint of the formatter.",
+    LS)
+add("C28", "exploration", "bounded exhaustive enumeration of texts x every character position x fresh names through the real prepareRename/rename handlers; alpha-renamed GrammarConfig as oracle",
+    "Grammars covering every syntactic place an identifier can refer to a non-terminal or scanner state (and name sharing between kinds): for every position and three fresh names the returned edits are applied; parol must read the result as the original grammar with exactly that symbol renamed; start symbol and INITIAL must be refused; every other symbol must be renameable somewhere.",
+    LS)
+add("C29", "model_checking", "exhaustive depth-first search over the schedules of background analyses against edit histories, executed on the real Server under a controlled gate (stateless re-execution of every prefix); conformance run with real threads",
+    "For every history of up to 2 (thorough 3) open/change notifications over 7 document kinds every schedule is explored: each spawned analysis either completes before its handler continues or is queued and run at any later point. On every complete schedule the last published diagnostics must carry the final version and be empty exactly when the final text alone has none. A free-running run with real threads checks that the observed publish sequence is among the explored ones.",
+    LS + "; a background analysis is one atomic step (its closure owns its inputs and has one visible effect)")
+add("C30", "exploration", "bounded exhaustive enumeration of documents x every position x every request kind through the real handlers; panic capture / process liveness / offset range as oracle",
+    "For valid, invalid, empty, CRLF, lone-CR, multi-byte and unterminated documents every position (incl. beyond the last line and column, u32::MAX) is sent to hover, definition, prepareRename, rename, codeAction (server and synthetic diagnostics), documentSymbol and formatting: no panic, process alive; pos_to_offset within the text and on a character boundary.",
+    LS)
+add("C33", "exploration", "bounded exhaustive enumeration of name menus through the real Builder; syn as oracle for validity and distinctness",
+    "Every ordered pair of non-terminal names from a menu chosen from what naming_helper / generate_name / terminal_name_generator special-case, every pair of terminal texts that map to equal, empty or digit-leading names, every pair of member names, LL and LALR, generated by the real Builder: both files must parse with syn; terminal names are identifiers and distinct; type names, members per struct, variants per enum, methods per trait/impl are pairwise distinct.",
+    "rustfmt is replaced by a no-op (formatting is not under test); whether generated code also type-checks is C22's business")
+add("C34", "exploration", "bounded exhaustive enumeration of texts at token and character level; verdict equality of two independently written parsers",
+    "Every PAR token sequence up to length 3 (thorough 4) in four frames, every character string up to length 3 (4) over 20 characters in three frames, and the repository inputs: parol's grammar parser reports a syntax error exactly when the language server's parser does.",
+    LS + " (command `parse`)")
+
 NOT_BUILT = {}
 
 def main():
